@@ -234,6 +234,27 @@ def gen_program(rnd):
     return dict(agents=[("a0", "Top")], behaviors=behaviors, monitor=None, record=False, compose=None, values={}, conds=conds)
 
 
+def gen_compose_program(rnd):
+    """`do choose` / `do shuffle` over sub-SCENARIOS with preconditions, in a compose block."""
+    names = ["SA", "SB", "SC"][: rnd.choice([2, 3])]
+    conds, subs = [], {}
+    for n in names:
+        sub = dict(compose=[("log", n.lower() + ":0"), ("wait",), ("log", n.lower() + ":1")] if rnd.random() < 0.5 else [("log", n.lower()), ("wait",)])
+        if rnd.random() < 0.6:
+            sub["pre"] = ["p" + n.lower()]
+            conds.append("p" + n.lower())
+        subs[n] = sub
+    weighted = rnd.random() < 0.5
+    items = [(n, rnd.randint(1, 5) if weighted else None) for n in names]
+    rnd.shuffle(items)
+    stmt = (rnd.choice(["dochoose", "doshuffle"]), items)
+    compose = [("log", "start"), stmt, ("log", "after")] + ([("loop", [stmt])] if rnd.random() < 0.3 else [("loop", [("wait",)])])
+    return dict(agents=[("a0", None)], behaviors={}, monitor=None, record=False, compose=compose, subs=subs, values={}, conds=conds)
+
+
 def generated(seed, n):
     rnd = random.Random(1900 + seed)
-    return {f"generated[{seed}.{i}]": gen_program(rnd) for i in range(n)}
+    out = {}
+    for i in range(n):
+        out[f"generated[{seed}.{i}]"] = gen_compose_program(rnd) if i % 3 == 2 else gen_program(rnd)
+    return out
